@@ -146,6 +146,8 @@ def run(ctx, chk):
     chk.rule("D7", "frontend operations tied to a feature put nothing on the wire before it is negotiated (C07/G1)")
     chk.rule("D8", "the frontend's record of the negotiated sets equals what it sent / received (C07/G5)")
     c07.run_on(fb, Renamed(chk, {"G1": ("D7", lambda k: "Frontend" in k), "G5": ("D8", lambda k: "frontend:" in k)}))
+    from . import xlist
+    xlist.apply("C02", fb, chk)
     n = lambda r: len([i for i in chk.instances if i[0] == r])
     chk.floor("D1", n("D1"), 34)
     chk.floor("D2", n("D2"), 35)
